@@ -179,12 +179,24 @@ struct Out {
 
 // The contract is discharged in three case harnesses whose union is every (state, key id) pair:
 //   _initial: nothing accepted yet;  _advance: k > max_seen (window shifts);  _within: k <= max_seen (no shift).
-// _advance and _within take 85-185 s each on the (loaded) development machine and are therefore thorough-tier.
+// They take 60-185 s each on the (loaded, 16 cores / load 20-60) development machine and are therefore thorough-tier.
 
-//@ harness props=C19 tier=quick level=full timeout=300
+//@ harness props=C19 tier=thorough level=full timeout=1200
 //@ fn path::secret::receiver::State::post_authentication
 //@ fn path::secret::receiver::State::pre_authentication
 //@ fn path::secret::receiver::State::new
+// obligations asserted through check_post_authentication / shift_end_model (listed here for the registry):
+//   "C19/receiver.builder/inv"
+//   "C19/receiver.post_authentication/ok_iff_unseen_and_in_window_and_not_max"
+//   "C19/receiver.post_authentication/already_exists_iff_marked_in_window"
+//   "C19/receiver.post_authentication/unknown_iff_outside_window_or_max"
+//   "C19/receiver.post_authentication/max_seen_is_max_of_accepted"
+//   "C19/receiver.post_authentication/accepted_is_old_plus_k_within_window"
+//   "C19/receiver.post_authentication/inv_preserved"
+//   "C19/receiver.post_authentication/error_leaves_state_unchanged"
+//   "C19/receiver.post_authentication/max_seen_below_reserved_max"
+//   "C19/receiver.post_authentication/shift_distance_at_most_window"
+//   "C19/receiver.shift_end_model/called_on_whole_window"
 #[kani::proof]
 #[kani::unwind(16)]
 #[kani::stub(bitvec::slice::BitSlice::shift_end, shift_end_model)]
@@ -203,6 +215,18 @@ fn vq_c19_receiver_post_authentication_initial() {
 //@ harness props=C19 tier=thorough level=full timeout=1200
 //@ fn path::secret::receiver::State::post_authentication
 //@ fn path::secret::receiver::State::pre_authentication
+// obligations asserted through check_post_authentication / shift_end_model (listed here for the registry):
+//   "C19/receiver.builder/inv"
+//   "C19/receiver.post_authentication/ok_iff_unseen_and_in_window_and_not_max"
+//   "C19/receiver.post_authentication/already_exists_iff_marked_in_window"
+//   "C19/receiver.post_authentication/unknown_iff_outside_window_or_max"
+//   "C19/receiver.post_authentication/max_seen_is_max_of_accepted"
+//   "C19/receiver.post_authentication/accepted_is_old_plus_k_within_window"
+//   "C19/receiver.post_authentication/inv_preserved"
+//   "C19/receiver.post_authentication/error_leaves_state_unchanged"
+//   "C19/receiver.post_authentication/max_seen_below_reserved_max"
+//   "C19/receiver.post_authentication/shift_distance_at_most_window"
+//   "C19/receiver.shift_end_model/called_on_whole_window"
 #[kani::proof]
 #[kani::unwind(16)]
 #[kani::stub(bitvec::slice::BitSlice::shift_end, shift_end_model)]
@@ -224,6 +248,18 @@ fn vq_c19_receiver_post_authentication_advance() {
 //@ harness props=C19 tier=thorough level=full timeout=1200
 //@ fn path::secret::receiver::State::post_authentication
 //@ fn path::secret::receiver::State::pre_authentication
+// obligations asserted through check_post_authentication / shift_end_model (listed here for the registry):
+//   "C19/receiver.builder/inv"
+//   "C19/receiver.post_authentication/ok_iff_unseen_and_in_window_and_not_max"
+//   "C19/receiver.post_authentication/already_exists_iff_marked_in_window"
+//   "C19/receiver.post_authentication/unknown_iff_outside_window_or_max"
+//   "C19/receiver.post_authentication/max_seen_is_max_of_accepted"
+//   "C19/receiver.post_authentication/accepted_is_old_plus_k_within_window"
+//   "C19/receiver.post_authentication/inv_preserved"
+//   "C19/receiver.post_authentication/error_leaves_state_unchanged"
+//   "C19/receiver.post_authentication/max_seen_below_reserved_max"
+//   "C19/receiver.post_authentication/shift_distance_at_most_window"
+//   "C19/receiver.shift_end_model/called_on_whole_window"
 #[kani::proof]
 #[kani::unwind(16)]
 #[kani::stub(bitvec::slice::BitSlice::shift_end, shift_end_model)]
